@@ -33,8 +33,8 @@ LEVEL = "fault_enumeration"
 NCALLS = {"quick": 5, "thorough": 7}
 RULE = ("per transport variant (Client, ClientTls, Incomer, IncomerTls, Driver+fake server, Driver+SerialNb+fake port): "
         "exhaustive enumeration of every send-result sequence (would-block, 0, every partial length, full) over every "
-        "queue of 1-2 messages of length 1-3 (thorough: 1-3 messages of length 1-4) until drained or 5 (thorough 7; 6 for "
-        "3-message queues) service calls, + exhaustive receive scripts (chunk lengths 1-3 / would-block, up to 4 items, "
+        "queue of 1-2 messages of length 1-3 (thorough: 1-3 messages of length 1-4) until drained or 5 (thorough 7; 6 / 5 for "
+        "3-message queues of length <= 3 / 4) service calls, + exhaustive receive scripts (chunk lengths 1-3 / would-block, up to 4 items, "
         "serviceReceives and serviceReceiveOnce), + Hypothesis histories (<= 120 ops, messages up to 2 KiB, interleaved "
         "tx/rx, TLS want-read/want-write) + real socketpair cases with minimal kernel buffers; invariant checked after "
         "every step. non-trivial = the transport met >= 1 partial send and >= 1 would-block (real sockets: >= 1 partial "
@@ -64,6 +64,7 @@ CA = ("127.0.0.1", 50001)
 FAKE_VARIANTS = ["Client", "ClientTls", "Incomer", "IncomerTls", "DriverFake", "DriverSerialNb"]
 REAL_VARIANTS = ["ClientReal", "IncomerReal", "DriverDeviceNbReal"]
 TLS_VARIANTS = ("ClientTls", "IncomerTls")
+INPROCESS = False      # set per tier by plan()
 
 
 class HarnessError(BaseException):
@@ -445,6 +446,14 @@ def rx_scripts(maxitems):
             yield list(items)
 
 
+def bound(lens, tier):
+    """Service-call bound for a queue: quick 5; thorough 7 for 1-2 messages, 6 for 3 messages of
+    length <= 3, 5 for 3 messages with a length-4 message (keeps thorough within minutes)."""
+    if len(lens) < 3:
+        return NCALLS[tier]
+    return 6 if max(lens) <= 3 else 5
+
+
 def lens_space(tier):
     if tier == "quick":
         one = [(a,) for a in (1, 2, 3)]
@@ -467,20 +476,23 @@ def _freeze():
 
 def plan(tier):
     import ioflo.aio.tcp.serving, ioflo.aio.tcp.clienting, ioflo.aio.serial.serialing, ioflo.aio.wiring  # noqa: preload before fork
+    global INPROCESS
+    # quick needs ~15 s of one core: run it in this process (forked pool workers are 3-10x slower per
+    # case on this VM, see _freeze); thorough fans out over the pool
+    INPROCESS = tier == "quick"
     _freeze()
     shards = []
     space = lens_space(tier)
     for v in FAKE_VARIANTS:
         if tier == "quick":
-            groups = [[l for l in space if len(l) == 1 or sum(l) <= 4], [l for l in space if len(l) == 2 and sum(l) == 5],
-                      [(3, 3)]]
+            groups = [space]
         else:
-            groups = [[l for l in space if len(l) <= 2 and sum(l) <= 6], [l for l in space if len(l) == 2 and sum(l) > 6]]
-            groups += [[l] for l in space if len(l) == 3]
+            groups = [[l for l in space if len(l) <= 2]]
+            groups += [[l for l in space if len(l) == 3 and l[0] == a] for a in (1, 2, 3, 4)]
         for g in groups:
             shards.append({"part": "exh", "variant": v, "lens": [list(l) for l in g]})
         shards.append({"part": "rx", "variant": v})
-    nrand = 8 if tier == "quick" else 32
+    nrand = 6 if tier == "quick" else 30
     for i in range(nrand):
         shards.append({"part": "rand", "i": i, "variant": FAKE_VARIANTS[i % len(FAKE_VARIANTS)]})
     nreal = 3 if tier == "quick" else 12
@@ -509,7 +521,7 @@ def work(shard, seed, tier):
     variant = shard["variant"]
     if part == "exh":
         for lens in shard["lens"]:
-            ncalls = NCALLS[tier] if len(lens) < 3 else 6
+            ncalls = bound(lens, tier)
             n = 0
             for toks, calls in scripts(lens, ncalls):
                 ops = [["tx", l] for l in lens] + [["svtx", toks]] + [["svtx"] for _ in range(calls - 1)]
@@ -547,7 +559,7 @@ def work(shard, seed, tier):
         acc.note("every receive script of <= 4 items (chunk length 1-3 / would-block) x every batching enumerated")
         return acc
     if part == "rand":
-        n = 150 if tier == "quick" else 1500
+        n = 200 if tier == "quick" else 1500
         strat = history_strategy(variant)
 
         def execute(ops):
